@@ -81,8 +81,10 @@ class Env:
         return sorted(p for p in self.d.iterdir() if p.name.endswith('.cache'))
 
     def clear_caches(self):
-        for p in self.caches():
-            p.unlink()
+        # everything that is not a source file: caches and whatever else a write protocol may leave behind (temporaries)
+        for p in list(self.d.iterdir()):
+            if p.name not in self.sources and p.is_file():
+                p.unlink()
 
     def load(self, variant):
         import contextlib
